@@ -160,6 +160,42 @@ def run(tier: str) -> int:
                         r.hit({"node": m, "kind": "function-reform-leaks", "rule": n},
                               f"replacing {n} at {date} changes {m}, which is not a descendant of it",
                               {"date": date, "data": popgen.frame_to_json(df), "rule": n, "node": m})
+            # --- aggregation-spec reforms: overriding ONE built-in group aggregate changes only its cone,
+            #     and leaves no trace in later runs
+            import extract
+            builtin = [n for n in extract.aggregation_dicts("aggregate_by_group") if n in nodes]
+            for n in rnd.sample(builtin, min(len(builtin), 3 if quick else 12)):
+                spec0 = extract.aggregation_dicts("aggregate_by_group")[n]
+                if spec0.get("aggr") == "count":
+                    alt = {"aggr": "sum", "source_col": rnd.choice(["kind", "rentner", "weiblich"])}
+                else:
+                    pool = [c for c in ("kind", "rentner", "weiblich", "kind_bis_17", "kind_bis_6", "erwachsen")
+                            if c != spec0.get("source_col") and (c in nodes or c in df.columns)]
+                    alt = {"aggr": spec0["aggr"] if spec0["aggr"] in ("sum", "any", "all") else "sum", "source_col": rnd.choice(pool)}
+                try:
+                    res = simulate_with(df, params, functions, nodes, aggregate_by_group_specs={n: alt})
+                except Exception:  # noqa: BLE001
+                    res = None
+                allowed = cone(dag, {n})
+                r.case({"date": date, "pop": k, "reform": f"user spec for {n}: {alt}"})
+                for m in (nodes if res is not None else []):
+                    if m not in allowed and not identical(res[m], base[m]):
+                        r.hit({"node": m, "kind": "aggregation-spec-reform-leaks", "spec": n},
+                              f"overriding the aggregation spec of {n} at {date} changes {m}, which is not a descendant of it",
+                              {"date": date, "data": popgen.frame_to_json(df), "spec": {n: alt}, "node": m})
+                try:
+                    again = simulate_with(df, params, functions, nodes)
+                except Exception as ex:  # noqa: BLE001
+                    r.hit({"node": "all", "kind": "reform-leaves-a-trace", "spec": n},
+                          f"after a run with a user aggregation spec for {n}, a plain re-run at {date} raises {type(ex).__name__}",
+                          {"date": date, "data": popgen.frame_to_json(df), "spec": {n: alt}})
+                    break
+                for m in nodes:
+                    if not identical(again[m], base[m]):
+                        r.hit({"node": m, "kind": "reform-leaves-a-trace", "spec": n},
+                              f"after a run with a user aggregation spec for {n}, a plain re-run at {date} gives a different {m}",
+                              {"date": date, "data": popgen.frame_to_json(df), "spec": {n: alt}, "node": m})
+                        break
             # the caller's params were not modified by any of this
             diffs = _deep_diff(snap, params)
             if diffs:
